@@ -344,6 +344,9 @@ assembler_case!(c01_heavy_reassembly_restart, "C01", None, [B, B, E], [U, U], [0
 // @verif tier=thorough mem=24 unwind=10 fs=300 unwindset=hashbrown:3,simd_bitmask_impl:17,find_suitable_capacity:4,dealloc_buffer_aligned:66
 assembler_case!(c01_heavy_reassembly_two_fragments_growth, "C01", Some(64), [B, E, U], [U, U], [0, 0], [64], "[must] growth path of the builder taken");
 
+// a stray END after a completed message must not be glued to what was delivered before (also run under C01)
+// @verif tier=quick unwind=10 fs=300 unwindset=hashbrown:3,simd_bitmask_impl:17,find_suitable_capacity:4,dealloc_buffer_aligned:2
+assembler_case!(c20_assembler_stray_end_after_message, "C20", None, [B, E, E], [U, U], [0, 0, 0], [64], "[must] a stray END after a completed message delivers nothing more");
 // Two sessions interleaved at fragment granularity (A = session 5, B = session 9; order 0 = A's next frame, 1 = B's).
 // @verif tier=quick unwind=10 fs=300 unwindset=hashbrown:3,simd_bitmask_impl:17,find_suitable_capacity:4,dealloc_buffer_aligned:2
 assembler_case!(c20_assembler_interleaved_join_ignored, "C20", None, [U, U, U], [E | X, U], [0, 1, 0, 1, 0], [32, 32, 9, 7], "[must] mid-message join ignored between the other session's messages, per-session order kept");
